@@ -1,7 +1,8 @@
 //! Replay spill. Arm A: scripted schedules of sender calls, reader creations and reader polls executed
 //! on the real SpillSender/SpillReceiver; every return value is recorded and compared with the
 //! Gallina state machine (stream `spill`). Reader events listed "during" a write/finish run after the
-//! first poll of that call's future (i.e. while it awaits file I/O) and before it is awaited.
+//! first poll of that call's future and before it is awaited; whether that first poll was Pending
+//! (the call was really suspended on file I/O) is recorded in the event (`awaited`).
 //! Arm B: a writer task and reader tasks racing on a multi-thread runtime; oracle only.
 use crate::common::*;
 use arrow_array::RecordBatch;
@@ -156,15 +157,17 @@ async fn exec(dir: &std::path::Path, case: usize, limit: usize, batches: &[Recor
                 let b = batches[*bi].clone();
                 acc.record_batch(&b);
                 let total = acc.total();
-                evs.push(format!("EWrite {} {} {}", coq_rows(&b), total, coq::list(during.iter().map(coq_rev))));
+                let ev = |awaited: bool| format!("EWrite {} {} {} {}", coq_rows(&b), total, coq::b(awaited), coq::list(during.iter().map(coq_rev)));
                 let Some(sender) = tx.as_mut() else {
+                    evs.push(ev(false));
                     obs.push("OGone".into());
                     continue;
                 };
                 let n_off = book.offered.len();
                 book.offered.push(b.clone());
-                let mut fut = Box::pin(sender.write(b));
+                let mut fut = Box::pin(sender.write(b.clone()));
                 let first = futures::poll!(fut.as_mut());
+                evs.push(ev(first.is_pending()));
                 let mut dobs = vec![];
                 let res = match first {
                     std::task::Poll::Ready(r) => {
@@ -213,13 +216,15 @@ async fn exec(dir: &std::path::Path, case: usize, limit: usize, batches: &[Recor
                 obs.push(format!("OWrite {} {} {}", coq_sres(&res), coq::b(exists), coq::list(dobs)));
             }
             Ev::Finish(during) => {
-                evs.push(format!("EFinish {}", coq::list(during.iter().map(coq_rev))));
+                let ev = |awaited: bool| format!("EFinish {} {}", coq::b(awaited), coq::list(during.iter().map(coq_rev)));
                 let Some(sender) = tx.as_mut() else {
+                    evs.push(ev(false));
                     obs.push("OGone".into());
                     continue;
                 };
                 let mut fut = Box::pin(sender.finish());
                 let first = futures::poll!(fut.as_mut());
+                evs.push(ev(first.is_pending()));
                 let mut dobs = vec![];
                 let res = match first {
                     std::task::Poll::Ready(r) => {
@@ -454,7 +459,7 @@ pub fn run(args: &Args, sink: &mut Sink, rt: &tokio::runtime::Runtime) {
         Ev::Write(0, vec![]), Ev::Read(REv::Open), Ev::Read(REv::Poll(0)), Ev::Write(1, vec![REv::Poll(0), REv::Open, REv::Poll(1)]),
         Ev::Read(REv::Poll(0)), Ev::Finish(vec![REv::Poll(0), REv::Poll(1)]), Ev::Read(REv::Poll(0)), Ev::Read(REv::Poll(1)), Ev::Read(REv::Poll(1)),
     ]));
-    for _ in 0..args.vol(260, 4000) {
+    for _ in 0..args.vol(200, 4000) {
         cases.push(gen_case(&mut rng));
     }
 
